@@ -102,6 +102,31 @@ if not changed:
         if after != before[pv]:
             tn = next((t for t in before[pv] if after.get(t) != before[pv][t]), 'error')
             changed.append({'proto': pv, 'inserted': 'index map untouched; %d user subclasses of library packet classes defined' % len(user), 'table': tn, 'before': before[pv].get(tn), 'after': after.get(tn, after)})
+# an application that narrows the supported set (deletes the newer entries of SUPPORTED_MINECRAFT_VERSIONS and calls
+# initglobals(), the documented mechanism): the tables of the versions that remain supported - the new LAST one included - are
+# the tables they had before
+if not changed:
+    saved = list(minecraft.SUPPORTED_MINECRAFT_VERSIONS.items())
+    try:
+        for keep in (len(saved) // 2, len(saved) // 5, len(saved) - 4):
+            minecraft.SUPPORTED_MINECRAFT_VERSIONS.clear()
+            minecraft.SUPPORTED_MINECRAFT_VERSIONS.update(saved[:keep])
+            minecraft.initglobals()
+            still = list(minecraft.SUPPORTED_PROTOCOL_VERSIONS)
+            for pv in still[-3:] + still[:2]:
+                try:
+                    after = table(ConnectionContext(protocol_version=pv))
+                except Exception as e:
+                    after = {'error': type(e).__name__}
+                if pv in before and after != before[pv]:
+                    tn = next((t for t in before[pv] if after.get(t) != before[pv][t]), 'error')
+                    changed.append({'proto': pv, 'inserted': 'nothing; supported set narrowed to its first %d entries (last supported protocol %d)' % (keep, still[-1]), 'table': tn, 'before': before[pv].get(tn), 'after': after.get(tn, after)})
+            if changed:
+                break
+    finally:
+        minecraft.SUPPORTED_MINECRAFT_VERSIONS.clear()
+        minecraft.SUPPORTED_MINECRAFT_VERSIONS.update(saved)
+        minecraft.initglobals()
 def dup(c):
     ids = [i for i, _k in c['after']] if isinstance(c['after'], list) else []
     return len(ids) != len(set(ids))
